@@ -74,3 +74,19 @@ func init() {
 		Rule:       "rapid draws an event pool, 0-3 pre-history batches and a batch of 1-3 (quick) / 1-5 (thorough) events. The batch is first run fault-free under the counting driver to learn its N driver calls; then EVERY k in 1..N is executed three ways on a fresh copy of the pre-history database: injected I/O error at call k (answers must equal those before the batch; then retry must give the answers of a single success), context cancellation before call k, and process death before call k (database files copied, copy reopened, SQLite recovery) - plus real SQLITE_FULL at 3 page limits, success-then-repeat, fail/fail/succeed through the handler's retry loop, close/reopen and dirty reopen after every pre-history batch, and comparison with a twin database that was never closed. evaluations = sampled (pre-history, batch) cases; each enumerates all its fault points. Non-trivial: N >= 8; distinct = distinct case hash.",
 		Assumptions: []string{"crash points are driver-call boundaries, not arbitrary bytes inside one SQLite commit (no VFS shim available)", "limited probes are judged with the tie-tolerant answer checker instead of equality across databases"}}
 }
+
+func init() {
+	props["C16"] = propCfg{Level: "exploration", QuickS: 40, ThoroughS: 600,
+		Components: []string{"mocrelay.SimpleHandler request/reply loop, CacheHandler (EVENT/REQ/COUNT replies, Dump/Restore), EventCache", "handler/sqlite: NewSQLiteHandler sessions with the bulk inserter on a real file database (go-sqlite3, WAL)"},
+		Stubs:      []string{"clients (1-2 scripted sessions: pipelined requests, await, pause/resume)", "goroutine scheduler (cooperative, seeded)", "wall clock"},
+		Rule:       "rapid draws a backend (cache 3:1 sqlite), capacity, related events with unique created_at, a prefilled store, 1-2 sessions with up to 8 (quick) / 14 (thorough) operations over all five message types sent pipelined without waiting, with stalled readers (back-pressure) and a schedule. Replies are parsed per session in request order: EVENT -> exactly one OK with its id (cache, single session: verdict and duplicate: prefix against the sequential store model; sqlite: accepting), REQ -> matching events labelled with its id then exactly one EOSE (cache, single session: exactly the model's answer), COUNT -> one COUNT, CLOSE/AUTH -> nothing, nothing interleaved, nothing extra. Finally the cache is dumped and restored into an empty cache of the same capacity and 4 filter lists are compared. Non-trivial: at least two EVENT/REQ requests; distinct = distinct (case, schedule) hash.",
+		Assumptions: []string{"for the SQLite handler only grammar, labels, order and filter conformance are judged (its OK precedes the asynchronous bulk insertion, so completeness of a REQ answer at that instant is not defined)", "with two cache sessions verdict and answer content are not compared with the sequential model (C15 owns concurrent content)"}}
+}
+
+func init() {
+	props["C13"] = propCfg{Level: "fault_enumeration", QuickS: 45, ThoroughS: 600,
+		Components: []string{"all handlers (default, cache, router, SQLite on a real in-memory database, nested merges) and all provided middlewares incl. both unique filters, quota, limits, logging and the prometheus middleware (instrumented)", "database/sql + go-sqlite3", "prometheus registry"},
+		Stubs:      []string{"one scripted client (pipelined history, then the cut)", "goroutine scheduler (cooperative, seeded; select poll order varied = one more message processed after cancellation)", "wall clock"},
+		Rule:       "rapid draws a handler tree (leaves default/cache/router/sqlite, merges of 2-3 subtrees up to depth 2, every node wrapped in 0-4 random middlewares), a history of 0-8 (quick) / 0-12 (thorough) valid client messages and a schedule. For each sampled (tree, history) EVERY cut point 0..len(history) is executed three ways: context cancelled with a draining peer, context cancelled with a peer that never reads, inbound channel closed with a draining peer. After each: ServeNostr returned within 1s of simulated time, goroutine census equals the census before the session, every router registry is empty, prometheus connection and subscription gauges are 0; then the handler context is cancelled and the bubble must end without blocked goroutines. evaluations = sampled (tree, history) pairs. Non-trivial: history of at least two messages; distinct = distinct (case, schedule) hash. The WebSocket clause (send timeout) is checked by the ws-session engine runs that are part of this check.",
+		Assumptions: []string{"cut points are the positions between messages of the pipelined history; where within the in-flight processing the cut lands is decided by the schedule", "a goroutine is identified by its stack with addresses and arguments removed"}}
+}
